@@ -463,6 +463,15 @@ func init() {
 	// ---- C15
 	register("c15", func(r *rng.R, tier string) []lcw.Input {
 		ws, in := world(r, r.Chance(3, 4))
+		leftovers := r.Chance(1, 3)
+		if leftovers { // leftovers of an interrupted earlier run sit in the layer directories
+			for _, l := range ws.Layers {
+				if r.Chance(2, 3) {
+					ws.Foreign = append(ws.Foreign, lcw.Entry{Path: lcw.B(in.Cfg.Layers + "/" + l.Name + "/layerconfig.tmp"), Kind: "f", Data: "base stale\n"})
+				}
+			}
+			in = lcw.BuildInput(ws)
+		}
 		if r.Chance(1, 8) {
 			in.FS = in.FS[:1]
 			s := step("init", "", "", false)
@@ -473,13 +482,17 @@ func init() {
 		in.Steps = append(in.Steps, priorMounts(r, ws, in.Cfg, r.Chance(1, 4))...)
 		t := pickLayer(r, ws).Name
 		var cmd lcw.StepIn
-		switch r.Intn(10) {
+		k := r.Intn(10)
+		if leftovers && r.Chance(3, 4) {
+			k = 1 + r.Intn(2) // the commands that rewrite layerconfigs
+		}
+		switch k {
 		case 0:
 			cmd = step("add", "newlayer", r.Pick(append(lcw.LayerNames(ws), "")), false)
 		case 1:
 			cmd = step("rename", t, "renamed", false)
 		case 2:
-			cmd = step("rebase", t, r.Pick(append(lcw.LayerNames(ws), "")), false)
+			cmd = step("rebase", t, r.Pick(append(lcw.LayerNames(ws), "", "")), false)
 		case 3:
 			cmd = step("remove", t, "", r.Chance(1, 2))
 		case 4:
